@@ -138,6 +138,11 @@ type endpoint struct {
 	// arrived from the peer; such a connection is torn down silently.
 	rcvdRst bool
 
+	// closedByRst is set by the protocol goroutine when that reset arrived
+	// after the peer's FIN was received and our own FIN was sent (CLOSING,
+	// LAST-ACK): the connection is then simply closed (RFC 793, page 70).
+	closedByRst bool
+
 	// workerRunning specifies if a worker goroutine is running.
 	workerRunning bool
 
